@@ -123,6 +123,9 @@ def c03(chk, thorough):
     guards.fit_apply_agreement(chk, prog2)
     guards.scaling_tests(chk, prog2, {'preprocessing.c', 'pls.c'})
     guards.reprojection_stats(chk, prog2)
+    pls_funcs = [f_.name for f_ in prog2.all_funcs() if f_.unit.name == 'pls.c' and f_.body is not None]
+    guards.kernel_tolerances(chk, prog2, {'pls.c': pls_funcs}, table={}, rule='FIT.tolerance',
+                             what='PLS fitting / prediction code (scores, loadings, weights and their norms scale with the data)')
     from . import accum
     accum.run(chk, prog2, {'matrix.c', 'vector.c'}, {'pls.c'})
     chk.floor('ACC.zeroed', 8)
@@ -209,6 +212,8 @@ def c08(chk, thorough):
     offsets.argmax_rule(chk, prog, ['LDAPrediction'])
     offsets.per_index_values(chk, prog, ['LDA', 'LDAPrediction', 'LDAError', 'LDAMulticlassStatistics'])
     chk.floor('DF.per-index', 3)
+    offsets.sibling_label_arms(chk, prog, ['LDA', 'LDAPrediction', 'LDAError', 'LDAMulticlassStatistics'])
+    chk.floor('OF.sibling-arms', 1)
     chk.floor('OF.argmax', 1)
     chk.floor('OF.compare', 6)
     chk.floor('OF.label-sink', 1)
@@ -273,6 +278,9 @@ def c15(chk, thorough):
     progm = load_program(chk, ['statistic.c', 'pls.c', 'mlr.c', 'matrix.c'])
     sorts.run(chk, progm, (('MatrixReverseSort', True),))
     chk.floor('SORT.shape', 1)
+    guards.kernel_tolerances(chk, progm, {'statistic.c': ['ROC', 'PrecisionRecall']}, table=guards.CURVE_TOLERANCE_TABLE,
+                             what='ROC / precision-recall constructions (scores are compared exactly: the curves depend on their order only)', rule='RC.tolerance')
+    chk.floor('RC.tolerance', 4)
     chk.floor('RF.definition', 5)
     chk.floor('RF.guard', 15)
     layout.run(chk, prog, {'pls.c': ['PLSRegressionStatistics', 'PLSDiscriminantAnalysisStatistics']})
